@@ -553,6 +553,33 @@ def split_ret_tuples(fn):
     return k
 
 
+def loops_to_comprehensions(fn, recorded_names):
+    """`xs = []` immediately followed by `for t in it: xs.append(E)` - xs a local the record does not know - becomes
+    `xs = [E for t in it]` (optionally with the single `if c:` guard of the append as the comprehension's filter)."""
+    import copy
+
+    k = 0
+    for _owner, blk in _blocks(fn):
+        i = 0
+        while i + 1 < len(blk):
+            st, lp = blk[i], blk[i + 1]
+            if isinstance(st, ast.Assign) and len(st.targets) == 1 and isinstance(st.targets[0], ast.Name) and isinstance(st.value, ast.List) and not st.value.elts and st.targets[0].id not in recorded_names and isinstance(lp, ast.For) and not lp.orelse and len(lp.body) == 1:
+                xs = st.targets[0].id
+                body = lp.body[0]
+                cond = None
+                if isinstance(body, ast.If) and not body.orelse and len(body.body) == 1:
+                    cond, body = body.test, body.body[0]
+                if isinstance(body, ast.Expr) and isinstance(body.value, ast.Call) and isinstance(body.value.func, ast.Attribute) and body.value.func.attr == "append" and isinstance(body.value.func.value, ast.Name) and body.value.func.value.id == xs and len(body.value.args) == 1 and not any(isinstance(n, ast.Name) and n.id == xs for n in ast.walk(body.value.args[0])) and not any(isinstance(n, ast.Name) and n.id == xs for n in ast.walk(lp.iter)):
+                    comp = ast.ListComp(elt=copy.deepcopy(body.value.args[0]), generators=[ast.comprehension(target=copy.deepcopy(lp.target), iter=copy.deepcopy(lp.iter), ifs=[copy.deepcopy(cond)] if cond is not None else [], is_async=0)])
+                    new = ast.copy_location(ast.Assign(targets=[ast.Name(id=xs, ctx=ast.Store())], value=comp), st)
+                    ast.fix_missing_locations(new)
+                    blk[i : i + 2] = [new]
+                    k += 1
+                    continue
+            i += 1
+    return k
+
+
 # value-only library calls: repeating one of them is not observable (used to allow multi-use aliases to be inlined)
 PURE_CALLS = {
     "slice", "max", "min", "sum", "abs", "len", "float", "int", "bool", "round", "sorted", "tuple", "list", "set", "dict", "range", "zip", "enumerate", "isinstance",
@@ -655,7 +682,10 @@ def inline_new_locals(fn, recorded_names):
                         mutated = True
                     if isinstance(par, ast.AugAssign) and par.target is l:
                         mutated = True
-                if mutated:
+                # ... unless the new local merely names an existing object (`agent = self._registrant`): a store through
+                # the name is then a store into that object, and the name can be replaced by the reference chain
+                pure_ref = isinstance(st.value, (ast.Name, ast.Attribute)) and all(isinstance(x, (ast.Attribute, ast.Name, ast.Load)) for x in ast.walk(st.value))
+                if mutated and not pure_ref:
                     continue
                 fresh_container = isinstance(st.value, (ast.List, ast.Dict, ast.Set, ast.ListComp, ast.DictComp, ast.SetComp))
                 if fresh_container and len(loads) != 1:
@@ -1119,6 +1149,7 @@ def normalise(project, path=PINNED):
                 progress += k
                 if not progress:
                     # only when renaming / mirroring / re-extraction have settled: what is still unrecorded is new
+                    progress += loops_to_comprehensions(fi.node, rec_names)
                     progress += split_parallel_assignments(fi.node, rec_names)
                     k = inline_new_locals(fi.node, rec_names)
                     stats["locals_inlined"] += k
